@@ -12,7 +12,7 @@
 (*  (3) vectors: rule-only zones probed at S(vY)-1, S(vY), E(vY)-1, E(vY) and  *)
 (*      around New Year, with the type the specification prescribes.       *)
 (***************************************************************************)
-EXTENDS Find, TLC, Json
+EXTENDS Algo, TLC, Json
 CONSTANTS DayIds,      \* notation ids used for start/end days (see NdOf)
           TimeIdx,     \* indices into Times
           OffIdx,      \* indices into OffPairs
@@ -75,5 +75,18 @@ Emit == (EmitVec /\ vPh = 2) => \A u \in Probes :
           PrintT(<<"VEC", ToJson([zk |-> RuleZoneArgs, op |-> "lookup", a |-> [u |-> CDSToW(u), via |-> "ref"], x |-> OutVec(Lookup(Z, u))])>>)
 \* the summary's verdict equals the statement's literal year-by-year definition (checked on the rules with equal time indices)
 LiteralConsistency == (vPh = 1 /\ vR.st = vR.et) => (vSum.consistent = Consistent(vR))
-Inv == DeclEqArith /\ PeriodLaws /\ LiteralConsistency /\ Emit
+\* ---- (4) the algorithm layer: the 12-leaf evaluator and the search's window walk (Algo.tla) give the declarative answer
+\* on every interleaving rule that is neither degenerate nor of the recorded K2 class (coincident south)
+FieldsOf(L) == LET cv == Civil(L) IN [y |-> YInt(cv.c, cv.yic), mo |-> cv.mo, d |-> cv.d, h |-> cv.h, mi |-> cv.mi, s |-> cv.s]
+LocalProbes == {CAddSec(u, o) : u \in {CAddSec(S0, -1), S0, CAddSec(E0, -1), E0, NewYear}, o \in {vR.std.off, vR.dst.off}}
+AlgoRefines == (vPh = 2 /\ Interleaves(vSum) /\ ~Degenerate(vSum) /\ ~CoincidentSouth(vSum)) =>
+  /\ \A u \in Probes : ATypeRefines(Z, u)
+  /\ \A L \in LocalProbes : AFindRefines(Z, FieldsOf(L), 0)
+\* witnesses, each REQUIRED TO BE VIOLATED on a rule of the class: TLC reproduces the recorded findings at the specification level
+\* K2: without the exclusion the 12-leaf evaluator does not refine the period definition on a coincident-south rule
+W_K2 == (vPh = 2 /\ Interleaves(vSum) /\ ~Degenerate(vSum)) =>
+           (\A u \in Probes : ATypeRefines(Z, u)) /\ (\A L \in LocalProbes : AFindRefines(Z, FieldsOf(L), 0))
+\* K1: on an accepted rule whose periods overlap the search's window walk returns an entry twice
+W_K1 == (vPh = 2 /\ ~Interleaves(vSum)) => \A L \in LocalProbes : LET list == AFind(Z, FieldsOf(L), 0) IN Len(list) = Cardinality(SeqToSet(list))
+Inv == DeclEqArith /\ PeriodLaws /\ LiteralConsistency /\ AlgoRefines /\ Emit
 =============================================================================
